@@ -497,7 +497,7 @@ func init() {
 	core.Register(&core.Prop{
 		ID:        "C10",
 		Technique: "history monitor: seeded Marshal/Unmarshal histories on one instance with re-used, pre-populated and stale-tailed targets compared with a reference decoder implementing the merge rules; fresh decodes re-issued along the history; race lane with 8 goroutines sharing the instance",
-		Rule: "every 13th case decodes hand-assembled messages whose times lack the seconds, the nanoseconds or both parts (field, pointer, nested struct, pointer to struct, existing map key) into fresh and populated targets; every 11th case decodes hand-built maps that name one key 2-4 times into nil, empty and populated targets. Otherwise one history = one fresh Plenc instance, 4 generated types, 50 (thorough 100) operations: marshal a boundary-biased value, decode it into a target that is re-used from an earlier decode / filled with a generated prior / fresh, half of the time after shortening slices in place so their backing arrays keep stale elements; " +
+		Rule: "every 17th case decodes hand-assembled maps (JSON object codec, string-keyed maps) with an entry that has no key field in second or later position into nil, empty and populated targets; every 13th case decodes hand-assembled messages whose times lack the seconds, the nanoseconds or both parts (field, pointer, nested struct, pointer to struct, existing map key) into fresh and populated targets; every 11th case decodes hand-built maps that name one key 2-4 times into nil, empty and populated targets. Otherwise one history = one fresh Plenc instance, 4 generated types, 50 (thorough 100) operations: marshal a boundary-biased value, decode it into a target that is re-used from an earlier decode / filled with a generated prior / fresh, half of the time after shortening slices in place so their backing arrays keep stale elements; " +
 			"the target is compared by value with model.Decode(prior, data); a quarter of the decodes are remembered as fresh-target decodes and re-issued later in the history, where they must give the identical result. distinct = (type, configuration, prior-shape, value-shape) hashes",
 		Assume: []string{"model.Decode states the merge rules of the statement; pointer identity and backing-array identity are not part of the property and are not compared"},
 		Plan: func(tier string) []core.Lane {
